@@ -389,11 +389,40 @@ fn check_project_in(ctx: &Ctx, p: &GenProject, t: &mut Tape, rec: &Rec, dir: &Pa
             if t.chance(40) {
                 o.allow.push("CS9999".into());
             }
+            // the order in which the ids are given must not matter, for the SARIF file either
+            match t.below(3) {
+                0 => o.allow.reverse(),
+                1 if o.allow.len() > 1 => o.allow.rotate_left(1),
+                _ => {}
+            }
+            let with_sarif = o.allow.len() >= 2 && t.chance(100);
+            let filter_sarif = dir.join("filter.sarif");
+            if with_sarif {
+                let _ = std::fs::remove_file(&filter_sarif);
+                o.sarif = Some(filter_sarif.clone());
+            }
             let b = run_bin(ctx, &o)?;
             if crashed(&b.out) {
                 continue;
             }
             contract(&b, &format!("--level {level} --allow {a:?}"))?;
+            if with_sarif {
+                rec.class("filter_runs_with_sarif");
+                let mut shown_ids: Vec<String> = b.parsed.diags.iter().filter_map(|d| d.id.clone()).collect();
+                shown_ids.sort();
+                let mut sarif_ids: Vec<String> = match &b.out.sarif_text {
+                    Some(text) => binrun::parse_sarif(text).map_err(|e| Bad::new(e).sig("C03:sarif-parse"))?.results.iter().map(|r| r.rule_id.clone()).collect(),
+                    None => Vec::new(),
+                };
+                sarif_ids.sort();
+                if shown_ids != sarif_ids {
+                    return Err(Bad::new(format!(
+                        "--level {level} --allow {:?} --sarif-file: the SARIF file holds results {sarif_ids:?} but the displayed findings are {shown_ids:?}",
+                        o.allow
+                    ))
+                    .sig("C03:sarif-vs-displayed-under-allow"));
+                }
+            }
             let want_f = multiset(
                 u.parsed
                     .diags
@@ -466,11 +495,66 @@ fn replay_known(ctx: &Ctx, k: &Known) -> Verdict {
     Ok(())
 }
 
+/// A definition name defined twice (in one file, or in two named files), with or without a main
+/// component: the duplicate-definition error is displayed exactly once per surplus definition, on
+/// stdout and in the SARIF file, whichever code path builds the program.
+fn duplicate_once_case(ctx: &Ctx, tape: &[u8], rec: &Rec) -> Verdict {
+    let mut t = Tape::new(tape);
+    let with_main = t.chance(170);
+    let mut p = gen_project(&mut t, ProjOpts { max_files: 2, max_defs: 3, main_component: with_main, clean: true, ..ProjOpts::default() });
+    let i = t.below(p.files.len());
+    let j = if p.files.len() > 1 && t.chance(100) { (i + 1) % p.files.len() } else { i };
+    let d = p.files[i].ast.defs[t.below(p.files[i].ast.defs.len())].clone();
+    let params = d.params.join(", ");
+    let text = if matches!(d.kind, crate::gen::ast::DefKind::Function) {
+        format!("\nfunction {}({params}) {{\n    return 1;\n}}\n", d.name)
+    } else {
+        format!("\ntemplate {}({params}) {{\n    signal input zdi;\n    signal output zdo;\n    zdo <== zdi;\n}}\n", d.name)
+    };
+    let src = p.files[j].r.src.clone();
+    let at = p.files[j].ast.main.as_ref().and_then(|m| p.files[j].r.span(m.id)).map(|s| s.0).unwrap_or(src.len());
+    p.files[j].r.src = format!("{}{text}{}", &src[..at], &src[at..]);
+    p.named = (0..p.files.len()).collect();
+    let dir = scratch(ctx, "c03d");
+    let res = (|| -> Verdict {
+        let named = p.write(&dir).map_err(|e| Bad::new(format!("INFRA write: {e}")))?;
+        let sarif_path = dir.join("d.sarif");
+        let mut o = RunOpts::files(&named).verbose().level("info");
+        o.sarif = Some(sarif_path);
+        let b = run_bin(ctx, &o)?;
+        if crashed(&b.out) {
+            rec.class("crashed_skipped");
+            return Ok(());
+        }
+        rec.class("duplicate_definition_projects");
+        rec.class(if p.files.iter().any(|f| f.ast.main.is_some()) { "duplicate_definition_projects_with_main" } else { "duplicate_definition_projects_without_main" });
+        rec.nontrivial(p.hash());
+        contract(&b, "project with a duplicated definition")?;
+        let shown = b.parsed.diags.iter().filter(|d| d.message.contains("Duplicated")).count();
+        let in_sarif = match &b.out.sarif_text {
+            Some(text) => binrun::parse_sarif(text).map_err(|e| Bad::new(e).sig("C03:sarif-parse"))?.results.iter().filter(|r| r.message.contains("Duplicated")).count(),
+            None => 0,
+        };
+        if shown != 1 || in_sarif != 1 {
+            return Err(Bad::new(format!(
+                "one surplus definition of `{}`: the duplicate-definition error is displayed {shown} time(s) and written to the SARIF file {in_sarif} time(s)",
+                d.name
+            ))
+            .sig("C03:duplicate-definition-error-count"));
+        }
+        Ok(())
+    })()
+    .map_err(|b| if b.rendered.is_empty() { b.rendered(p.describe()) } else { b });
+    let _ = std::fs::remove_dir_all(&dir);
+    res
+}
+
 pub fn replay(ctx: &Ctx, check: &str, tape: &[u8]) -> Verdict {
     let stats = Stats::new();
     let rec = Rec::new(&stats, false);
     match check {
         "projects" => case(ctx, tape, &rec),
+        "duplicate_once" => duplicate_once_case(ctx, tape, &rec),
         _ => Err(Bad::new(format!("unknown check {check}"))),
     }
 }
@@ -486,13 +570,15 @@ pub fn run(ctx: &Ctx) -> i32 {
     }
     let fails = run_tapes_opts(ctx, "projects", ctx.tier.pick(240, 4_000), 3000, 60, &stats, |tape, rec| case(ctx, tape, rec));
     outcome.absorb(&known, fails);
+    let fails = run_tapes_opts(ctx, "duplicate_once", ctx.tier.pick(200, 4_000), 3000, 40, &stats, |tape, rec| duplicate_once_case(ctx, tape, rec));
+    outcome.absorb(&known, fails);
     finish(
         ctx,
         &stats,
         &outcome,
         EvidenceSpec {
             level: "exploration",
-            rule: "generated projects (1-3 files with includes, 1-4 functions/templates each that call and instantiate each other, shadowing declarations, optional main component, random layout/comments, random curve) are written to disk and run through the real binary. (1) conservation: the multiset of displayed (severity, id, message, file:line:col) must equal an in-process reference = reports of parse_files + for every definition of a named file the reports of into_cfg/into_ssa called directly on it + the reports of every analysis pass on that CFG (a fresh runner only answers look-ups), i.e. everything except the caches, ordering, writers, filters and main; (2) contract: exit 0 iff nothing displayed, summary count and singular/plural form; (3) with --sarif-file at each level: results = displayed findings with rule id, level, message and the regions of all primary/related labels recomputed from the source bytes, exactly one rule descriptor per id, `Result written` iff something was displayed; (4) filter laws: for each level and every allow-subset of the occurring ids (all subsets when <= 4 ids, else 16) displayed = {f in unfiltered | level(f) >= L and id not allowed}; naming an extra file only adds findings located in it. Non-trivial = project with >= 2 distinct ids, a component instantiation and a CFG-stage report (CS0001); distinct by project hash. Each evaluation is a project (about 30-60 binary runs).",
+            rule: "generated projects (1-3 files with includes, 1-4 functions/templates each that call and instantiate each other, shadowing declarations, optional main component, random layout/comments, random curve) are written to disk and run through the real binary. (1) conservation: the multiset of displayed (severity, id, message, file:line:col) must equal an in-process reference = reports of parse_files + for every definition of a named file the reports of into_cfg/into_ssa called directly on it + the reports of every analysis pass on that CFG (a fresh runner only answers look-ups), i.e. everything except the caches, ordering, writers, filters and main; (2) contract: exit 0 iff nothing displayed, summary count and singular/plural form; (3) with --sarif-file at each level: results = displayed findings with rule id, level, message and the regions of all primary/related labels recomputed from the source bytes, exactly one rule descriptor per id, `Result written` iff something was displayed; (4) filter laws: for each level and every allow-subset of the occurring ids (all subsets when <= 4 ids, else 16) displayed = {f in unfiltered | level(f) >= L and id not allowed}; naming an extra file only adds findings located in it; in a share of the filter runs the allow list is given in another order together with --sarif-file and the SARIF ids must equal the displayed ids. (5) projects with one surplus definition of a name (same file or a second named file, with or without a main component): the duplicate-definition error appears exactly once on stdout and in the SARIF file. Non-trivial = project with >= 2 distinct ids, a component instantiation and a CFG-stage report (CS0001); distinct by project hash. Each evaluation is a project (about 30-60 binary runs).",
             assumptions: vec![
                 "the reference shares the individual passes and into_cfg/into_ssa with the tool; it bypasses what the property is about".into(),
                 "a report without any location is not `located solely in an included file` and must be displayed".into(),
